@@ -66,12 +66,15 @@ class C05(Prop):
     level_text = ("Lean theorems: witness checkers and brute-force deciders for CI / CEI / VI / VEI / WSC / DE / PART / "
                   "2PART and C1P are correct; the model of solve_consecutive_ones' glue (grouping identical columns, "
                   "expanding groups) and of each reduction (complement stacking, transpose, pair rows, positions and "
-                  "radii, distinct approval sets) is sound and complete for every solver meeting the stated contract. "
-                  "The PQ-tree itself (reorder_sets) is a parameter: its contract is exercised on every run (each "
-                  "returned order re-checked by the verified checker, each False compared with the verified brute "
-                  "force or a planted Tucker obstruction), not proved")
-    level_note = ("Lean kernel + standard axioms; the 800-line PQ-tree port is modelled by its contract only (tested, "
-                  "not proved); hand-written model of the glue and reductions")
+                  "radii, distinct approval sets) is sound and complete for every solver meeting the stated contract; "
+                  "and the statement-level model of the PQ-tree itself (reorder_sets with P/Q.set_contiguous, flatten, "
+                  "simplify, CPython set iteration order) is proved to meet that contract — a returned order is a "
+                  "rearrangement with every element's sets consecutive, and Impossible is raised only when none "
+                  "exists — so isC1P of the model equals the consecutive-ones specification for every matrix. "
+                  "The model is compared with the real functions (verdict and exact column order) on every run")
+    level_note = ("Lean kernel + standard axioms; hand-written models of the glue, the reductions and the PQ-tree "
+                  "(consecutive_ones.py), tied to the code by differential testing; CPython int-set iteration order "
+                  "is modelled (PySet) and only affects which valid order is returned")
     theorems = [
         "PrefVerif.C05.contiguous_iff",
         "PrefVerif.C05.mem_perms",
@@ -86,6 +89,15 @@ class C05(Prop):
         "PrefVerif.C05.dichotomousEuclidean_correct",
         "PrefVerif.C05.part_correct",
         "PrefVerif.C05.part2_correct",
+        "PrefVerif.C05PQ.reorderSets_perm",
+        "PrefVerif.C05PQ.reorderSets_sound",
+        "PrefVerif.C05PQ.reorderSets_complete",
+        "PrefVerif.C05PQ.reorderSets_solverOK",
+        "PrefVerif.C05PQ.solveConsecutiveOnes_correct",
+        "PrefVerif.C05PQ.solveConsecutiveOnes_witness",
+        "PrefVerif.C05PQ.reorderSets_general",
+        "PrefVerif.C05PQ.reorderSetsE_error",
+        "PrefVerif.C05PQ.isC1P_iff",
     ]
     rule = ("random approval profiles (<= 6 alternatives, <= 6 ballots incl. empty, full and repeated ballots, "
             "unapproved alternatives) against brute force; partition profiles with one / two / more parts; 0/1 "
@@ -165,7 +177,15 @@ class C05(Prop):
                 yield {"kind": "matrix", "matrix": mat, "ncols": nc, "small": nc <= 7, "planted": None}
             elif r < 0.85:
                 nr, nc = rng.choice([(8, 8), (15, 12), (25, 30), (40, 40)])
-                yield {"kind": "matrix", "matrix": planted_c1p(rng, nr, nc), "ncols": nc, "small": False, "planted": True}
+                mat = planted_c1p(rng, nr, nc)
+                planted = True
+                if rng.random() < 0.4:
+                    # flip a few entries: status unknown to the generator, decided by the verified PQ-tree model
+                    for _ in range(rng.randint(1, 3)):
+                        i, j = rng.randrange(len(mat)), rng.randrange(nc)
+                        mat[i][j] = 1 - mat[i][j]
+                    planted = None
+                yield {"kind": "matrix", "matrix": mat, "ncols": nc, "small": False, "planted": planted}
             else:
                 core = rng.choice([TUCKER_IV, TUCKER_V, tucker_cycle(rng.randint(1, 6))])
                 big = rng.random() < 0.6
@@ -237,7 +257,8 @@ class C05(Prop):
             s = obs["solve"]
             if s[0] == "ok" and s[1][0] and isinstance(s[1][1], list):
                 d["witness"] = s[1][1]
-            return [d]
+            # the Lean model of the PQ-tree itself (proved sound and complete: C05PQ)
+            return [d, {"op": "pq.solve", "matrix": case["matrix"], "ncols": case["ncols"]}]
         w = {}
         for k in ("ci", "cei", "vi", "vei", "wsc"):
             r = obs[k]
@@ -265,8 +286,20 @@ class C05(Prop):
         P = lambda what, site: out.append(Problem("violation", case, what, site))
         D_ = lambda what, site: out.append(Problem("disagreement", case, what, site))
         if case["kind"] == "matrix":
+            pq = replies[1]
             truth = rep["c1p"] if rep["c1p"] is not None else case["planted"]
+            if truth is None:
+                truth = pq["isC1P"]        # decided by the verified PQ-tree model (C05PQ.isC1P_iff)
+                self.count("truth-from-verified-pq-model")
+            elif pq["isC1P"] != truth:
+                D_(f"PQ-tree model isC1P = {pq['isC1P']}, brute force / planted status = {truth}", "model/pq-spec")
             s, q = obs["solve"], obs["isC1P"]
+            if s[0] == "ok":
+                if (pq["result"] is not None) != s[1][0]:
+                    D_(f"PQ-tree model answers {pq['result'] is not None}, solve_consecutive_ones answers {s[1][0]}",
+                       "model/pq-verdict")
+                elif s[1][0]:
+                    self.count("pq-order:" + ("identical" if pq["result"] == s[1][1] else "drift"))
             if s[0] != "ok":
                 P(f"solve_consecutive_ones raised {s[1]}", "solve/call")
             else:
